@@ -25,7 +25,12 @@ YenKnown ==
       \/ (Ev.outcome = "nopath" /\ "F-C13-c" \in Devs /\ Known("C13", "F-C13-c"))
       \/ (Ev.outcome = "timeout" /\ Ev.first_len > 2 /\ "F-C13-d" \in Devs /\ Known("C13", "F-C13-d"))
       \/ (Ev.outcome = "ok" /\ "F-C13-e" \in Devs /\ Known("C13", "F-C13-e"))
-T_KResult == /\ Ev.ev = "KResult" /\ UNCHANGED <<scn, kq, remaining>> /\ Frozen
+(* under the checks of C01 / C03 only the validity of every returned route (contiguous loop-free walk with
+   correctly accumulated state and costs, incl. the re-oriented reverse half of single-via alternatives) is judged *)
+T_KResultRoutesOnly == /\ Ev.ev = "KResult" /\ ~Enforce("C13") /\ UNCHANGED <<scn, kq, remaining>> /\ Frozen
+                       /\ Ev.outcome = "ok" => Chk("C01/C03 every returned route is a valid walk with accumulated state", AllValid(RoutesOfEv))
+                       /\ accepted' = <<>> /\ kdone' = TRUE
+T_KResult == /\ Ev.ev = "KResult" /\ Enforce("C13") /\ UNCHANGED <<scn, kq, remaining>> /\ Frozen
              /\ IF ~Reachable
                 THEN Chk("C13 unreachable destination reported as no path", Ev.outcome = "nopath") /\ accepted' = <<>> /\ kdone' = TRUE
                 ELSE IF Ev.outcome = "ok" /\ kq.k >= 1 /\ RoutesOK(RoutesOfEv, kq.k, kq.sim) /\ (Ev.n_accept_all < 0 \/ Ev.n_accept_all >= Len(Ev.routes))
@@ -43,7 +48,7 @@ T_KResult == /\ Ev.ev = "KResult" /\ UNCHANGED <<scn, kq, remaining>> /\ Frozen
 TInit == /\ l = 1 /\ scn = Idle /\ queue = <<>> /\ g = <<>> /\ tree = <<>> /\ cur = 0 /\ lastE = 0 /\ todo = {} /\ iters = 0
          /\ outcome = "run" /\ pc = "idle" /\ reop = FALSE
          /\ kq = [k |-> 1, sim |-> [type |-> "accept_all", p |-> 0], alg |-> "svp"] /\ accepted = <<>> /\ remaining = {} /\ kdone = FALSE
-TNext == l <= Len(Rec) /\ l' = l + 1 /\ (T_KSetup \/ T_KResult)
+TNext == l <= Len(Rec) /\ l' = l + 1 /\ (T_KSetup \/ T_KResult \/ T_KResultRoutesOnly)
 TSpec == TInit /\ [][TNext]_tvars
 Track == TrackPos(l)
 NotStop == NotStopped(l)
